@@ -428,6 +428,8 @@ func (v *Voter) vote(voteType VoteType, blockHash common.Hash, priority common.H
 		return err
 	}
 
+	verifOnVote(v, voteType, msg)
+
 	// update statistics
 	_, count := v.votesMgr.newVote(v.round, v.roundIndex, voteType, v.addr, priority, blockHash, voteInfo, stepView.ValidatorType)
 
@@ -732,6 +734,7 @@ func (v *Voter) commit(blockHash, priority common.Hash) {
 		logging.Debug("Certificate votes.", "Round", v.round, "RoundIndex", v.roundIndex, "count", count)
 	}
 
+	verifOnCommit(v, &ev)
 	v.eventMux.AsyncPost(ev)
 
 	logging.Debug("send CommitEvent.", "Round", v.round, "RoundIndex", v.roundIndex, "block", blockHash.String())
